@@ -418,8 +418,20 @@ def k2_find_cache_meta(rep: Any) -> None:
         else:
             c.stats["refuted"] += 1
             m = c.path_model()
-            reason = next((k for k in ("meta_loads", "same_mypy_version", "dep_prios_length_consistent", "dep_lines_length_consistent", "keyed_options_equal", "platform_equal", "plugins_snapshot_equal", "plugin_config_data_equal", "meta_ex_loads") if m.get(k) is False), "?")
-            found.setdefault(("find_cache_meta keeps a meta although " + reason + " is false") if kept else "find_cache_meta abandons a meta although every validity condition holds", m)
+            sv = vals.get("skip_version_check", False)
+            conj = {
+                "the meta record loads": g("meta_loads"),
+                "the mypy version matches (or --skip-version-check)": g("same_mypy_version") or sv,
+                "dep_prios has one entry per dependency": g("dep_prios_length_consistent"),
+                "dep_lines has one entry per dependency": g("dep_lines_length_consistent"),
+                "the keyed options are equal": g("keyed_options_equal"),
+                "the platform is equal (or --skip-version-check)": g("platform_equal") or sv,
+                "the plugin snapshots agree": g("plugins_snapshot_equal") or not (g("old_plugins_snapshot_present") and g("plugins_snapshot_present")),
+                "the plugin configuration data is unchanged": g("plugin_config_data_equal"),
+                "the meta_ex record loads": g("meta_ex_loads"),
+            }
+            reason = next((k for k, v in conj.items() if not v), "a condition was never examined")
+            found.setdefault(("find_cache_meta keeps a meta although not: " + reason) if kept else "find_cache_meta abandons a meta although every validity condition holds", m)
 
     ctx.explore(body)
     rep.add_ctx("K2 find_cache_meta decision part", ctx, outcomes=dict(n))
